@@ -340,6 +340,17 @@ class SimReadFile:
         self._pos = 0
         self._after = len(self._data) + 1 if at_eof else after      # at_eof: every byte is delivered, the read that would report EOF fails
         self._at_eof = at_eof
+        if not binary and not at_eof and after > 0:
+            # the plan counts BYTES of the file; a text-mode reader holds characters (multi-byte characters, CRLF read as one
+            # newline): the fault point is the character the byte offset falls in - and a fault planned inside the file stays inside
+            try:
+                with _real_open(path, 'rb') as fh:
+                    raw = fh.read()
+                if after < len(raw):
+                    pre = raw[:after].decode('utf-8', 'ignore').replace('\r\n', '\n')
+                    self._after = min(len(pre), max(0, len(self._data) - 1))
+            except OSError:
+                pass
         self._code = code or errno_mod.EIO
         self._binary = binary
         self.name = path
